@@ -1,6 +1,8 @@
 package main
 
 import (
+	"fmt"
+	"go/token"
 	"strings"
 
 	"golang.org/x/tools/go/ssa"
@@ -63,6 +65,9 @@ func crossRegistered(c *Ctx) {
 		if !sk["varDecl"] {
 			ruleVarDeclByName(c, base+".43")
 		}
+		if !sk["bindAllGroups"] {
+			ruleBindVisitsEveryResultGroup(c, base+".43")
+		}
 	}
 	ctx := func(base string, skip ...string) {
 		sk := map[string]bool{}
@@ -108,19 +113,25 @@ func crossRegistered(c *Ctx) {
 	case "C01":
 		order("C01", "pairedEdges", "isWait", "refTable", "fieldAccess", "guardReceivers", "snapshot", "poolsAppendOnly", "poolsProcessed", "laneIntegrity", "stmtOrder", "syncJoins", "emittedInPlace", "exprListsFresh")
 		parse("C01")
+		namesInEmissionOrder(c, "C01.49")
 	case "C02":
 		order("C02", "pairedEdges", "isWait", "refTable", "fieldAccess", "guardReceivers", "snapshot", "poolsProcessed", "laneIntegrity", "exprListsFresh")
 		parse("C02", "typeIdentity", "asyncFlag")
 		ctx("C02", "threaded", "samePredicate", "constQualifiers", "injected", "isContextType", "doneErr", "handlerUnchanged", "paramsNamedFirst", "namesWriteOnce", "notPatched")
+		ruleProviderSpecCarriesItsExpression(c, "C02.47")
+		c12All(c, "C02.48")
+		ruleRuntimeFnIsIdentity(c, "C02.49")
 	case "C03":
 		order("C03", "pairedEdges", "refTable", "fieldAccess", "guardReceivers", "poolsAppendOnly", "poolsProcessed", "laneIntegrity", "emittedInPlace", "exprListsFresh", "readiness")
 		lanes("C03", "poolPredicate", "callerLane", "matching", "antichain", "argmin", "scannedWhole")
 	case "C04":
 		order("C04", "pairedEdges", "isWait", "refTable", "fieldAccess", "guardReceivers", "snapshot", "laneIntegrity", "stmtOrder", "emittedInPlace", "exprListsFresh", "fifo", "seeded")
 		parse("C04", "asyncFlag")
+		namesInEmissionOrder(c, "C04.49")
 	case "C05":
 		parse("C05", "typeIdentity", "asyncFlag")
 		lanes("C05", "poolPredicate", "callerAppends", "matching", "antichain", "argmin", "scannedWhole")
+		ruleRuntimeFnIsIdentity(c, "C05.47")
 		order("C05", "pairedEdges", "isWait", "refTable", "fieldAccess", "guardReceivers", "snapshot", "poolsAppendOnly", "poolsProcessed", "laneIntegrity", "stmtOrder", "syncJoins", "emittedInPlace", "exprListsFresh", "readiness", "fifo", "seeded")
 	case "C06":
 		order("C06", "pairedEdges", "isWait", "refTable", "fieldAccess", "snapshot", "laneIntegrity", "stmtOrder")
@@ -172,4 +183,298 @@ func namesReachAllocator(c *Ctx, rule string) {
 		f.Rule = rule
 		c.Finds = append(c.Finds, f)
 	}
+}
+
+// ruleBindVisitsEveryResultGroup: Bind[I] attaches the interface to whichever result of the wrapped provider implements it. The
+// stores that extend a result group of the parsed provider (`result.Provides[i] = append(result.Provides[i], I)`) are indexed
+// by a loop variable over the groups, never by a constant: bound to group 0 only, a provider whose implementing result comes
+// second no longer supplies the interface, which silently becomes an injector parameter.
+func ruleBindVisitsEveryResultGroup(c *Ctx, rule string) {
+	L := c.L
+	fn := genFn(c, rule, "(*Parser).parseProviderType")
+	if fn == nil {
+		return
+	}
+	n := 0
+	for _, f := range family(L, fn) {
+		for _, b := range f.Blocks {
+			for _, in := range b.Instrs {
+				st, ok := in.(*ssa.Store)
+				if !ok {
+					continue
+				}
+				ia, ok := st.Addr.(*ssa.IndexAddr)
+				if !ok {
+					continue
+				}
+				ld, ok := resolve(ia.X).(*ssa.UnOp)
+				if !ok {
+					continue
+				}
+				fa, ok := ld.X.(*ssa.FieldAddr)
+				if !ok || fieldKey(fa) != "internal/kessoku.parseProviderTypeResult.Provides" {
+					continue
+				}
+				n++
+				_, isConst := constInt(ia.Index)
+				c.check(!isConst, rule, fnName(f)+":bind-extends-every-result-group", L.pos(st.Pos()),
+					"the interface of a Bind is attached to whichever result group of the wrapped provider implements it (the store is indexed by the loop over the groups, not by a constant)", "index "+describe(ia.Index))
+			}
+		}
+	}
+	if n == 0 {
+		c.ok(rule, "parseProviderType: no store into a result group of the parsed provider recognised; rule not applied", "shape not recognised")
+	}
+}
+
+// ruleDefaultNameFlagComputed: an import whose name was handed out by the allocator is printed without an alias only when the
+// allocator answered the package's own name. Wherever an Import gets its Name from VarPool.GetName, its IsDefaultName is the
+// comparison of that very answer with something (or false); a constant true prints `import "path"` while the body uses the
+// suffixed name the allocator chose (`errgroup0`): undefined identifier, and the unaliased import clashes with the user's name.
+func ruleDefaultNameFlagComputed(c *Ctx, rule string) {
+	L := c.L
+	n := 0
+	for _, fn := range pkgFuncs(L, genPkg) {
+		for _, f := range withClosures(fn) {
+			var names, flags []*ssa.Store
+			for _, b := range f.Blocks {
+				for _, in := range b.Instrs {
+					st, ok := in.(*ssa.Store)
+					if !ok {
+						continue
+					}
+					fa, ok := st.Addr.(*ssa.FieldAddr)
+					if !ok {
+						continue
+					}
+					switch fieldKey(fa) {
+					case "internal/kessoku.Import.Name":
+						names = append(names, st)
+					case "internal/kessoku.Import.IsDefaultName":
+						flags = append(flags, st)
+					}
+				}
+			}
+			for _, nm := range names {
+				call, ok := resolve(nm.Val).(*ssa.Call)
+				if !ok || !strings.HasSuffix(calleeOf(call.Common()), "VarPool).GetName") {
+					continue
+				}
+				base := nm.Addr.(*ssa.FieldAddr).X
+				for _, fl := range flags {
+					if fl.Addr.(*ssa.FieldAddr).X != base {
+						continue
+					}
+					n++
+					ok, why := false, "the flag is "+describe(resolve(fl.Val))
+					switch v := resolve(fl.Val).(type) {
+					case *ssa.Const:
+						ok = v.Value != nil && v.Value.String() == "false"
+						why = "constant " + v.Value.String()
+					case *ssa.BinOp:
+						if v.Op == token.EQL && (resolve(v.X) == ssa.Value(call) || resolve(v.Y) == ssa.Value(call)) {
+							ok, why = true, "comparison of the allocator's answer with the package name"
+						}
+					}
+					c.check(ok, rule, fnName(f)+":default-name-flag-compares-the-allocated-name", L.pos(fl.Pos()),
+						"an import named by the allocator is printed without alias only when the allocator answered the package's own name", why)
+				}
+			}
+		}
+	}
+	c.floor(rule, "imports named by the allocator whose default-name flag is set", n, 3)
+}
+
+// c12Reserved: the reserved-word rules of C12.3 (both lists complete, both seeded into the pool) under another property's id.
+// The templates call the builtins close and make by their plain names: a generated local that is allowed to be called `close`
+// (a provided type Close) shadows the builtin, the "close" of a done-channel then calls the user's value and the waiters
+// block for ever.
+func c12Reserved(c *Ctx, rule string) {
+	sub := &Ctx{Prop: c.Prop, Tier: c.Tier, L: c.L, FuncsSeen: c.FuncsSeen, Extra: c.Extra, RoleNames: c.RoleNames}
+	runC12(sub)
+	for _, o := range sub.Obls {
+		if o.Rule == "C12.3" {
+			o.Rule = rule
+			c.Obls = append(c.Obls, o)
+		}
+	}
+	for _, f := range sub.Finds {
+		if f.Rule == "C12.3" {
+			f.Rule = rule
+			c.Finds = append(c.Finds, f)
+		}
+	}
+}
+
+// ruleProviderSpecCarriesItsExpression: every provider specification that parseProviderArgument adds to the declaration is built
+// for the argument at hand: its ASTExpr (the expression the generated injector will call) is this call's argument expression.
+// A specification taken from anywhere else (a cache keyed by the provider's type) makes two providers of one Go type share the
+// expression of whichever came first: the second injector calls the first one's provider.
+func ruleProviderSpecCarriesItsExpression(c *Ctx, rule string) {
+	L := c.L
+	fn := genFn(c, rule, "(*Parser).parseProviderArgument")
+	if fn == nil {
+		return
+	}
+	// the argument expression, as it is or as a function of the package returned it (the requalifying copy of
+	// collectDependencies)
+	var exprParam func(v ssa.Value, d int) bool
+	exprParam = func(v ssa.Value, d int) bool {
+		switch x := resolve(v).(type) {
+		case *ssa.Parameter:
+			return strings.HasSuffix(x.Type().String(), "go/ast.Expr")
+		case *ssa.Extract:
+			return d < 2 && exprParam(x.Tuple, d+1)
+		case *ssa.Call:
+			if h := x.Common().StaticCallee(); h == nil || h.Pkg != fn.Pkg || d >= 2 {
+				return false
+			}
+			for _, a := range x.Common().Args {
+				if strings.HasSuffix(a.Type().String(), "go/ast.Expr") && exprParam(a, d+1) {
+					return true
+				}
+			}
+		}
+		return false
+	}
+	isExprParam := func(v ssa.Value) bool { return exprParam(v, 0) }
+	var fromAlloc func(v ssa.Value, d int) (bool, bool) // (decided, ok)
+	fromAlloc = func(v ssa.Value, d int) (bool, bool) {
+		switch x := resolve(v).(type) {
+		case *ssa.Alloc:
+			if x.Referrers() == nil {
+				return true, false
+			}
+			for _, r := range *x.Referrers() {
+				fa, ok := r.(*ssa.FieldAddr)
+				if !ok || fieldKey(fa) != "internal/kessoku.ProviderSpec.ASTExpr" || fa.Referrers() == nil {
+					continue
+				}
+				for _, rr := range *fa.Referrers() {
+					if st, isSt := rr.(*ssa.Store); isSt && st.Addr == ssa.Value(fa) && isExprParam(st.Val) {
+						return true, true
+					}
+				}
+			}
+			return true, false
+		case *ssa.Call:
+			h := x.Common().StaticCallee()
+			if h == nil || h.Pkg != fn.Pkg || len(h.Blocks) == 0 || d >= 2 {
+				return false, false
+			}
+			all := true
+			for _, r := range returnsOf(h) {
+				dec, ok := fromAlloc(r.Results[0], d+1)
+				if !dec {
+					return false, false
+				}
+				all = all && ok
+			}
+			// the helper's expression parameter must be fed this function's expression parameter
+			fed := false
+			for _, a := range x.Common().Args {
+				if isExprParam(a) {
+					fed = true
+				}
+			}
+			return true, all && fed
+		}
+		return false, false
+	}
+	n := 0
+	for _, f := range family(L, fn) {
+		for _, st := range storesToField([]*ssa.Function{f}, "internal/kessoku.BuildDirective.Providers") {
+			call, ok := st.Val.(*ssa.Call)
+			if !ok || calleeOf(call.Common()) != "builtin append" || len(call.Common().Args) != 2 {
+				continue
+			}
+			elems, ok := variadicElems(resolve(call.Common().Args[1]))
+			if !ok {
+				continue
+			}
+			for _, e := range elems {
+				dec, good := fromAlloc(e, 0)
+				if !dec {
+					c.ok(rule, fnName(f)+": a provider specification added to the declaration is not a literal built here; rule not applied", describe(resolve(e)))
+					continue
+				}
+				n++
+				c.check(good, rule, fnName(f)+":provider-spec-built-for-this-argument", L.pos(st.Pos()),
+					"the provider specification added to the declaration is built for the argument at hand: its ASTExpr is this call's argument expression", "no store of the argument expression into ASTExpr of "+describe(resolve(e)))
+			}
+		}
+	}
+	if n == 0 {
+		c.ok(rule, "parseProviderArgument: no literal provider specification appended; rule not applied", "shape not recognised")
+	}
+}
+
+// c12All: the whole allocator discipline of C12 under another property's id (a generated local that captures a user identifier
+// changes what a provider expression copied into the injector evaluates to).
+func c12All(c *Ctx, rule string) {
+	sub := &Ctx{Prop: c.Prop, Tier: c.Tier, L: c.L, FuncsSeen: c.FuncsSeen, Extra: c.Extra, RoleNames: c.RoleNames}
+	runC12(sub)
+	for _, o := range sub.Obls {
+		o.Rule = rule
+		c.Obls = append(c.Obls, o)
+	}
+	for _, f := range sub.Finds {
+		f.Rule = rule
+		c.Finds = append(c.Finds, f)
+	}
+}
+
+// namesInEmissionOrder: the who-may-call rule of C11.14 under another property's id. Values are named when the code that
+// mentions them is emitted, the injector's parameters first; a name asked for earlier (an argument of a log call is evaluated
+// whether or not the level is enabled) lets a provided context.Context take `ctx`, the name the errgroup declaration assigns:
+// the derived context is then written into a provided variable that other lanes read (C01), and `ctx0` is left unused (C04).
+func namesInEmissionOrder(c *Ctx, rule string) {
+	ruleWhoMayCallReach(c, rule, "(*InjectorParam).Name", "a value gets its name when the code that mentions it is emitted (first come, first served in emission order): nothing outside the emission - logging, validation - asks for names", "Generate", "(*InjectorProviderCallStmt).Stmt", "(*InjectorFieldAccessStmt).Stmt", "(*InjectorChainStmt).Stmt", "(*InjectorParam).ChannelName")
+}
+
+// ruleRuntimeFnIsIdentity: the run-time half of the library is transparent. Generated code calls providers as
+// `kessoku.Async(kessoku.Provide(f)).Fn()(args)`; every Fn method of the annotation package hands back the function it was
+// given (a field of its receiver, or what the wrapped annotation's Fn returns) and calls nothing else - no lock, no cache, no
+// reflection. A wrapper installed there (memoising under a mutex) serialises the very providers the generated goroutines
+// were meant to overlap, and no generated file changes by a byte.
+func ruleRuntimeFnIsIdentity(c *Ctx, rule string) {
+	L := c.L
+	n := 0
+	for _, fn := range pkgFuncs(L, modPath) {
+		if fn.Name() != "Fn" || fn.Signature.Recv() == nil || len(fn.Blocks) == 0 {
+			continue
+		}
+		n++
+		bad := ""
+		for _, f := range withClosures(fn) {
+			for _, b := range f.Blocks {
+				for _, in := range b.Instrs {
+					switch x := in.(type) {
+					case *ssa.Go, *ssa.Defer, *ssa.Send, *ssa.Select, *ssa.MapUpdate:
+						bad = fmt.Sprintf("%T", x)
+					case *ssa.Call:
+						cc := x.Common()
+						if cc.IsInvoke() {
+							if cc.Method.Name() != "Fn" {
+								bad = "call of " + cc.Method.FullName()
+							}
+						} else if h := cc.StaticCallee(); h == nil || h.Name() != "Fn" || h.Pkg != fn.Pkg {
+							bad = "call of " + calleeOf(cc)
+						}
+					case *ssa.Store:
+						if _, isAlloc := x.Addr.(*ssa.Alloc); !isAlloc {
+							bad = "store to " + describe(x.Addr)
+						}
+					case *ssa.UnOp:
+						if g, isG := x.X.(*ssa.Global); isG && x.Op == token.MUL {
+							bad = "read of the package variable " + g.Name()
+						}
+					}
+				}
+			}
+		}
+		c.check(bad == "", rule, fnName(fn)+":runtime-Fn-hands-back-the-function", L.pos(fn.Pos()),
+			"an annotation's Fn hands back the wrapped function and does nothing else (no lock, cache, reflection or shared state between provider calls)", bad)
+	}
+	c.floor(rule, "Fn methods of the annotation package", n, 3)
 }
